@@ -132,6 +132,9 @@ def run_tlc(module, cfg, wd, workers=8, timeout=1500, extra=None, env=None, heap
                errors=err_lines, wall=wall)
     if p.returncode == 124:
         raise ToolError(f"TLC timed out after {timeout}s on {module}/{cfg}")
+    if p.returncode != 0 and allow_violation:
+        res["tail"] = ""
+        return res
     if p.returncode != 0 and not (violated and allow_violation):
         tail = subprocess.run(["tail", "-n", "40", out], stdout=subprocess.PIPE, text=True).stdout
         # strip REPLAY noise
